@@ -17,7 +17,12 @@ ASSUMPTIONS = ['Gamma is compared to the exact rational model with tolerance 1e-
 
 def table(tier):
     lim = 7 if tier == 'quick' else 8
-    return [(N, d) for N in range(1, 6) for d in range(1, 6) if N + d <= lim and N * d <= (12 if tier == 'quick' else 16)]
+    tab = [(N, d) for N in range(1, 6) for d in range(1, 6) if N + d <= lim and N * d <= (12 if tier == 'quick' else 16)]
+    # high degrees for few variables (the smallest entries of Gamma are 1/d^d: 2.6e-9 for d = 9, 1.1e-13 for d = 12)
+    tab += [(1, 6), (1, 7), (1, 9), (1, 10), (1, 12), (2, 6), (2, 9), (3, 6)]
+    if tier != 'quick':
+        tab += [(1, 8), (1, 11), (1, 13), (1, 14), (2, 7), (2, 8), (2, 10), (3, 7)]
+    return tab
 
 
 def check_nd(ctx, N, d):
@@ -34,8 +39,9 @@ def check_nd(ctx, N, d):
     mG = ctx.model.ask({'op': 'interp', 'what': 'Gamma', 'N': N, 'd': d})['r']
     mGf = np.array([[float(F(v)) for v in row] for row in mG])
     ctx.pairs += G.size
-    if not close(G, mGf):
-        return 'Gamma-%d-%d: generate_Gamma_and_rays differs from the exact model, max diff %s' % (N, d, maxdiff(G, mGf))
+    if not close(G, mGf) or np.max(np.abs(G - mGf)) > 1e-7 * np.max(np.abs(mGf)):
+        return 'Gamma-%d-%d: generate_Gamma_and_rays differs from the exact model, max diff %s (largest entry %s)' % (
+            N, d, maxdiff(G, mGf), float(np.max(np.abs(mGf))))
     if not np.array_equal(rays, J):
         return 'rays-%d-%d: rays differ from the multi-index list' % (N, d)
     # identity with the implementation's own Gamma
